@@ -3,7 +3,14 @@
 Blocks are connected with streams. A block can have zero or more input
 streams, and write to zero or more output streams.
 */
+#[cfg(rustradio_verif_sync)]
+use crate::verif::KString as String;
+#[cfg(rustradio_verif_sync)]
+use crate::verif::sync::{Condvar, Mutex};
 use std::collections::VecDeque;
+#[cfg(rustradio_verif_sync)]
+use std::sync::Arc;
+#[cfg(not(rustradio_verif_sync))]
 use std::sync::{Arc, Condvar, Mutex};
 
 use crate::circular_buffer;
@@ -250,6 +257,16 @@ impl<T: Copy> WriteStream<T> {
 /// Basically anything that GNU Radio would *not* call a message port.
 #[must_use]
 pub fn new_stream<T>() -> (WriteStream<T>, ReadStream<T>) {
+    #[cfg(rustradio_verif)]
+    {
+        // Stream capacity override, in samples (0 = default).
+        let n = crate::verif::STREAM_SAMPLES.load(std::sync::atomic::Ordering::SeqCst);
+        if n != 0 {
+            let circ =
+                Arc::new(circular_buffer::Buffer::new(n * std::mem::size_of::<T>()).unwrap());
+            return (WriteStream { circ: circ.clone() }, ReadStream { circ });
+        }
+    }
     let circ = Arc::new(circular_buffer::Buffer::new(DEFAULT_STREAM_SIZE).unwrap());
     (WriteStream { circ: circ.clone() }, ReadStream { circ })
 }
@@ -343,4 +360,9 @@ impl<T: Len> NCReadStream<T> {
     pub fn peek_size(&self) -> Option<usize> {
         self.q.0.lock().unwrap().front().map(|e| e.len())
     }
+}
+
+#[cfg(rustradio_verif)]
+pub mod verif_access {
+    include!(concat!(env!("RUSTRADIO_VERIF_DIR"), "/access/stream.rs"));
 }
